@@ -273,6 +273,8 @@ int main(void) {
             size_t from = en > 1500 ? en - 1500 : 0, to = en;
             eb[en < ecap ? en : ecap - 1] = 0;
             char *mk = strstr(eb, "ERROR: ");
+            char *mu = strstr(eb, "runtime error:");          /* UBSan: "<file>:<line>:<col>: runtime error: ..." */
+            if (mu && (!mk || mu < mk)) { mk = mu; while (mk > eb && mk[-1] != '\n') mk--; }
             if (mk) { from = (size_t)(mk - eb); to = from + 4000 < en ? from + 4000 : en; }
             if (to == from) putchar('-');
             for (size_t i = from; i < to; i++) printf("%02x", (unsigned char)eb[i]);
